@@ -39,6 +39,11 @@ def plan(ctx):
 _FIELDS = {}
 
 
+def H_srepr(x):
+    import hcommon
+    return hcommon.short(x, 200)
+
+
 def data_fp(x, dc):
     """Structural, type-exact fingerprint of frozen data (mutable containers are kept visible)."""
     import struct
@@ -55,13 +60,13 @@ def data_fp(x, dc):
     if t is tuple:
         return ("t",) + tuple(data_fp(i, dc) for i in x)
     if t is frozenset:
-        return ("fs",) + tuple(sorted((data_fp(i, dc) for i in x), key=repr))
+        return ("fs",) + tuple(sorted((data_fp(i, dc) for i in x), key=H_srepr))
     if t is list:
         return ("LIST",) + tuple(data_fp(i, dc) for i in x)
     if t is dict:
         return ("DICT",) + tuple(sorted(((repr(k), data_fp(v, dc)) for k, v in x.items())))
     if t is set:
-        return ("SET",) + tuple(sorted((data_fp(i, dc) for i in x), key=repr))
+        return ("SET",) + tuple(sorted((data_fp(i, dc) for i in x), key=H_srepr))
     if t is float:
         return ("f", struct.pack("<d", x))
     if t is complex:
@@ -74,7 +79,7 @@ def data_fp(x, dc):
 def _type_diff(a, b, path="$"):
     """First path at which two structural fingerprints differ."""
     if type(a) is not type(b) or not isinstance(a, tuple):
-        return "%s: %r vs %r" % (path, a, b) if a != b else None
+        return "%s: %s vs %s" % (path, H_srepr(a), H_srepr(b)) if a != b else None
     if len(a) != len(b) or (a and b and a[0] != b[0] and isinstance(a[0], str)):
         return "%s: %s(%d items) vs %s(%d items)" % (path, a[0] if a else "?", len(a), b[0] if b else "?", len(b))
     for i, (x, y) in enumerate(zip(a, b)):
@@ -126,7 +131,7 @@ def run(shard):
     import json
     import hcommon as H
     import corpus
-    cdm = H.import_repo()
+    cdm = H.import_repo(json_only=shard.get("role") == "json_only")
     CodeData = cdm.CodeData
     state = {"case": None, "hist": []}
 
@@ -136,6 +141,30 @@ def run(shard):
 
     def viol(monitor, clause, detail):
         H.violation("C12", monitor, clause, dict(state["case"], history=" ".join(state["hist"][-12:])), detail)
+
+    # ---- interpreter-wide state must not be changed by an API call ------------------------------
+    import sys as _sys
+    import warnings as _warnings
+    import os as _os
+
+    def global_state():
+        return (_sys.getrecursionlimit(), getattr(_sys, "get_int_max_str_digits", lambda: None)(), len(_sys.path), len(_warnings.filters),
+                _os.getcwd(), _sys.getswitchinterval(), len(_os.environ), _sys.gettrace() is None)
+
+    def with_global(pre, post, name):
+        def pre2(a, k, depth):
+            return (pre(a, k, depth), global_state() if depth == 0 else None)
+
+        def post2(a, k, res, exc, depth, snap):
+            inner, g = snap if snap is not None else (None, None)
+            if g is not None:
+                H.count("checks:C12.global_state")
+                g2 = global_state()
+                if g2 != g:
+                    viol(name, "interpreter-wide state changed by the call", "before %r after %r (recursion limit, int_max_str_digits, "
+                         "len(sys.path), warning filters, cwd, switch interval, len(environ), no trace function)" % (g, g2))
+            post(a, k, res, exc, depth, inner)
+        return pre2, post2
 
     # ---- monitors on the five API methods -------------------------------------------------------
     def pre_data(a, k, depth):
@@ -191,11 +220,11 @@ def run(shard):
         if H.code_fp(a[1]) != snap:
             viol("from_code", "argument mutated", "code object differs after from_code")
 
-    H.Monitor(CodeData, "from_code", pre=pre_code, post=post_code).install()
-    H.Monitor(CodeData, "to_code", pre=pre_data, post=post_data("to_code")).install()
-    H.Monitor(CodeData, "normalize", pre=pre_data, post=post_data("normalize")).install()
-    H.Monitor(CodeData, "to_json_data", pre=pre_data, post=post_data("to_json_data")).install()
-    H.Monitor(CodeData, "from_json_data", pre=pre_json, post=post_json).install()
+    for _name, _pre, _post in (("from_code", pre_code, post_code), ("to_code", pre_data, post_data("to_code")),
+                               ("normalize", pre_data, post_data("normalize")), ("to_json_data", pre_data, post_data("to_json_data")),
+                               ("from_json_data", pre_json, post_json)):
+        _p, _q = with_global(_pre, _post, _name)
+        H.Monitor(CodeData, _name, pre=_p, post=_q).install()
 
     # ---- history driver --------------------------------------------------------------------------
     def same_data(a, b):
